@@ -52,6 +52,14 @@ CHECKS.update({
              text="Bounded symbolic checking: for traces of 1-2(3) symbolic points and symbolic spacing, with 1..5 subdivisions per segment, first/last/originals kept in order, inserted points at k/dt on the connection, no gap above the spacing.",
              note="Reals; more than 5 subdivisions per segment outside the bound; lat-lon primitives assumed correct here (C14)."),
 })
+CHECKS.update({
+ 'C05': dict(tech="symbolic execution of real match() on a real InMemMap with the real planar kernels (G-real, z3 nlsat): cut-off and nearest-point claims per best-path state; cut-offs also over abstract geometry", ref="5/C05",
+             text="Bounded symbolic checking: on concrete small layouts (incl. zero-length and 8e-5-long edges) with symbolic observations and thresholds, every state of the best path respects max_dist / max_dist_init / min_prob_norm, its position is p1+ti(p2-p1), its distance is the distance to that position and no point of the edge is nearer.",
+             note="Reals; T=2; layout library; lat-lon metric outside; non-emitting minimality with the C13 slack."),
+ 'C17': dict(tech="relational symbolic execution (pairs vs triples) through real matcher + real InMemMap + real kernels (planar z3 nlsat; lat-lon with uninterpreted trigonometry); exceptions as outcomes; QF_FP guard lemma", ref="5/C17",
+             text="Bounded symbolic checking of totality and timestamp-independence: on every explored path neither run raises and pairs/triples give the same states, index and probability; degenerate geometry is ordinary symbolic input in the planar metric.",
+             note="Lat-lon runs only exercise control flow/tuple handling (opaque sin/cos/...; exception paths there are replayed on concrete coordinates before being reported); SimpleMatcher.logprob_obs(0) rounding outside."),
+})
 NA = {
  'C15': "error bound between two transcendental computations (great-circle vs locally projected planar): needs a delta-complete procedure for sin/cos/atan2; z3 has none and cvc5 QF_NRAT timed out on the 3-variable core (DESIGN.md section 8)",
 }
